@@ -257,4 +257,105 @@ theorem specMcaOk {P : Prog} {idOf : Nat → Nat} (hP : Wf2 P idOf) : SpecMcaOk 
     rw [b4]
     omega
 
+/-! ### non-vacuity: a valid creator with a struct, `spec` not computed yet -/
+
+namespace FSpecEx
+
+/-- every node creates a struct `Ts(0, 5)` and returns the handle; `spec(t) = t.k + t.v` -/
+def P : Prog where
+  node _ := .create 0 5 fun h => .ret h
+  spec k v := .ret ⟨k + v, none⟩
+
+def idOf : Nat → Nat := fun _ => 0
+
+def mc : Memo :=
+  { value := ⟨5, some 0⟩, hgen := some 0, va := 1, ca := 1, dur := 3, deepAt := 1, origin := none,
+    ts := some 0, obs := [] }
+
+def sl : Slot := { gen := 0, k := 0, v := 5, fca := 1, dur := 3, upd := 1 }
+
+/-- node 0 was executed in revision 1 -/
+def st : State :=
+  { cur := 1, lch := fun _ => 1, inp := fun _ => ⟨0, 1, 0⟩,
+    memos := fun q => if q = 0 then some mc else none,
+    slots := fun q => if q = 0 then some sl else none,
+    smemos := fun _ => none, nextGen := 1, wlog := [], trace := [], panic := none }
+
+theorem wf2 : Wf2 P idOf where
+  node _ := Wf2B.create _ 0 5 _ rfl
+    (Wf2B.mid _ _ (Wf2B.retPost _ _ (fun _ hc => Or.inr (Option.some.inj hc).symm)))
+  spec k v := WfS.ret (k + v)
+
+theorem lc1 (d : Nat) : lc st d = 1 := by
+  unfold Model.CoreSpec.lc; split <;> rfl
+
+theorem noObs : ∀ o, o ∈ mc.obs → False := fun _ ho => List.not_mem_nil ho
+
+theorem nodeOk : NodeOk P idOf st 0 mc := by
+  refine ⟨?_, rfl, fun _ o ho => (noObs o ho).elim, fun o ho => (noObs o ho).elim,
+    fun o ho => (noObs o ho).elim, fun o c ho => (noObs o ho).elim, trivial, ?_, ?_,
+    fun o ho => (noObs o ho).elim, fun _ o ho => (noObs o ho).elim, Or.inl (Nat.le_refl 1),
+    fun o ho => (noObs o ho).elim⟩
+  · refine ⟨Nat.le_refl 1, Nat.le_refl 1, Nat.le_refl 1, Nat.le_refl 1, Nat.le_refl 1, Nat.le_refl 3,
+      fun o ho => (noObs o ho).elim, fun _ o ho => (noObs o ho).elim,
+      Or.inl (by rw [lc1]; exact Nat.le_refl 1),
+      fun o _ ho => (noObs o ho).elim, fun o _ _ ho => (noObs o ho).elim, fun o _ _ ho => (noObs o ho).elim,
+      fun o ho => (noObs o ho).elim, fun w d hw => (by cases hw)⟩
+  · refine ⟨⟨⟨5, some 0⟩, some (0, 5), none⟩, rfl, rfl, rfl, ?_, ?_⟩
+    · intro k v h
+      cases h; rfl
+    · intro _
+      refine ⟨⟨sl, rfl, rfl, rfl, Nat.le_refl 1, ?_, ?_⟩, ?_⟩
+      · intro A hA; cases hA
+      · intro o ho; cases ho
+      · intro w0 h0; cases h0
+  · intro c hc
+    have : c = 0 := (Option.some.inj hc).symm
+    exact Or.inl ⟨this, rfl⟩
+
+theorem inv : Inv P idOf st := by
+  refine ⟨rfl, Nat.le_refl 1, fun d => (by rw [lc1]; exact Nat.le_refl 1),
+    fun d => (by rw [lc1]; exact Nat.le_refl 1), fun d => (by rw [lc1, lc1]; exact Nat.le_refl 1),
+    fun d _ => lc1 d, fun i => Nat.le_refl 1, fun i => Nat.le_refl 1,
+    fun w d hw => (by cases hw), fun w d hw => (by cases hw), ?_, ?_, ?_,
+    fun c sm h => (by cases h), fun c sm h => (by cases h), ?_, fun c sm h => (by cases h)⟩
+  · intro w h1 h2
+    have : st.cur = 1 := rfl
+    omega
+  · intro q m hm
+    by_cases hq : q = 0
+    · subst hq
+      have : mc = m := Option.some.inj hm
+      subst this
+      exact nodeOk
+    · simp [st, hq] at hm
+  · intro q hq _
+    by_cases h0 : q = 0
+    · subst h0; cases hq
+    · simp [st, h0]
+  · intro c sl' hsl
+    by_cases h0 : c = 0
+    · subst h0
+      have : sl = sl' := Option.some.inj hsl
+      subst this
+      exact ⟨Nat.le_refl 1, Nat.le_refl 1, Nat.le_refl 1, Nat.le_refl 3⟩
+    · simp [st, h0] at hsl
+
+theorem creatorOk : memoSok st 0 := ⟨mc, rfl, Or.inl rfl⟩
+
+end FSpecEx
+
+/-- the hypotheses of `specFetchOk` are satisfiable; the request computes `spec = 0 + 5` -/
+example : Inv FSpecEx.P FSpecEx.idOf FSpecEx.st ∧ memoSok FSpecEx.st 0 ∧ (∃ sl, FSpecEx.st.slots 0 = some sl) ∧
+    (fetchSpec FSpecEx.P.spec FSpecEx.st 0).1.panic = none ∧
+    (fetchSpec FSpecEx.P.spec FSpecEx.st 0).2.val = ⟨5, none⟩ ∧
+    semSpec FSpecEx.P FSpecEx.st.inp 0 = ⟨5, none⟩ :=
+  ⟨FSpecEx.inv, FSpecEx.creatorOk, ⟨FSpecEx.sl, rfl⟩, rfl, rfl,
+   ((specFetchOk FSpecEx.wf2 FSpecEx.st 0 FSpecEx.inv FSpecEx.creatorOk ⟨FSpecEx.sl, rfl⟩ rfl).2.2.2.2.1).symm⟩
+
+/-- … and of `specMcaOk`: no memo of `spec` yet, the answer is "changed" -/
+example : (mcaSpec FSpecEx.P.spec FSpecEx.st 0 1).1.panic = none ∧ (mcaSpec FSpecEx.P.spec FSpecEx.st 0 1).2 = true ∧
+    Inv FSpecEx.P FSpecEx.idOf (mcaSpec FSpecEx.P.spec FSpecEx.st 0 1).1 :=
+  ⟨rfl, rfl, (specMcaOk FSpecEx.wf2 FSpecEx.st 0 1 FSpecEx.inv FSpecEx.creatorOk ⟨FSpecEx.sl, rfl⟩ rfl).1⟩
+
 end SalsaVerif.Proofs.CoreSpec
